@@ -64,7 +64,12 @@ def gen_case(rng, tier, index):
     # kept under a selection too); metadata groups come from the history
     limit = rng.choice([None, None, None, 1, 2])
     return {"hist": hist, "readers": readers, "seed": rng.getrandbits(32),
-            "limit": limit}
+            "limit": limit,
+            # history on ONE handle: a shuffled pass before the unshuffled
+            # ones; two unshuffled iterators alive at the same time
+            "shuffled_first": rng.random() < 0.4,
+            "interleave": rng.random() < 0.35,
+            "pattern": rng.getrandbits(30)}
 
 
 def run_case(case):
@@ -91,8 +96,54 @@ def run_case(case):
             ds0 = env.hr.ds
             limit = case.get("limit")
             ref_kw = {"custom_metadata_type_limit": limit} if limit else {}
+            fresh_ref = [i for i, _ in dsgen.read_sync(
+                env.open(), split, st["attrs"], **ref_kw)]
+            if case.get("shuffled_first"):
+                # a shuffled pass on the kept handle must not disturb later
+                # unshuffled passes on the same handle
+                random.seed(case["seed"] ^ 0x51)
+                list(ds0.as_numpy_iterator(split=split, repeat=False,
+                                           shuffle=5, **ref_kw))
+                probes["shuffled_pass_before_unshuffled"] += 1
             ref = [i for i, _ in dsgen.read_sync(ds0, split, st["attrs"],
                                                  **ref_kw)]
+            if ref != fresh_ref:
+                out.update(
+                    ok=False, vclass="sequence_depends_on_handle_history",
+                    detail=f"split {split}: a reopened handle yields "
+                    f"{fresh_ref[:12]} but the kept handle (after a shuffled "
+                    f"pass: {bool(case.get('shuffled_first'))}) yields "
+                    f"{ref[:12]}", key={"engine": "E-read"})
+                break
+            # (tfrec: the concurrent iterator holds a `tf.device` scope open
+            # across yields; two such generators advanced alternately leave
+            # their scopes out of order and TensorFlow raises - overlapping
+            # passes are not part of any property, so tfrec is left out)
+            if case.get("interleave") and not limit and st["fmt"] != "tfrec":
+                other = splits[1] if len(splits) > 1 else split
+                oref = [i for i, _ in dsgen.read_sync(env.open(), other,
+                                                      st["attrs"])]
+                fp2 = max(1, min(2, len(table) - 1))
+                res, err, isc = eread.run_interleaved(
+                    env, ds0,
+                    [("conc", split, {"repeat": False, "shuffle": 0,
+                                      "fp": fp2}, None),
+                     ("conc", other, {"repeat": False, "shuffle": 0,
+                                      "fp": 1}, None)],
+                    case["seed"] ^ 0x77, case.get("pattern", 5))
+                stats["scheduler_decisions"] += isc.steps
+                h.update(isc.digest().encode())
+                probes["two_live_iterators_on_one_handle"] += 1
+                got2 = [[i for i, _ in r] for r in res]
+                if err or got2 != [ref, oref]:
+                    out.update(
+                        ok=False, vclass="interleaved_iterators_differ",
+                        detail=f"two unshuffled concurrent iterators of one "
+                        f"handle advanced alternately (splits {split}, "
+                        f"{other}): {err or ''} expected {ref[:10]} / "
+                        f"{oref[:10]} got {got2[0][:10]} / {got2[1][:10]}",
+                        key={"engine": "E-read"})
+                    break
             if limit:
                 probes["selection_limit_option"] += 1
                 full = [i for i, _ in dsgen.read_sync(ds0, split,
@@ -226,7 +277,9 @@ def reach(agg):
     for name in ("reader_sync", "reader_conc", "reader_async",
                  "writers_on_simulated_pool", "several_sessions_in_split",
                  "parallelism_above_shard_count",
-                 "shards_not_multiple_of_parallelism"):
+                 "shards_not_multiple_of_parallelism",
+                 "shuffled_pass_before_unshuffled",
+                 "two_live_iterators_on_one_handle"):
         if not p.get(name):
             need.append(f"probe {name} never hit")
     if bootstrap.RUST_SOURCE not in ("none", "stub") and not p.get(
